@@ -3,7 +3,8 @@
 //   C07, C08, C13: every data/zoom section written is reachable through the index.
 // For ALL section counts n and all block_size >= 2 the function terminates and returns (tree, levels, total) with
 //   tree   `wf(tree, levels, block_size, true)`  -- literally the precondition of rt_layout's write_rtreeindex,
-//          `cover_all(tree)`                     -- the builder's side of rt_search's `span_cover`,
+//          `cover_all(tree)`                     -- the builder's side of rt_search's `span_cover` (for an input sorted
+//                                                    by (chrom, start); everything else holds for ANY input order),
 //          `leaves_of(tree) == the input`        -- every section once, in order,
 //   levels == height(tree), total == n; n == 0 gives the single empty leaf with levels 0 (fix 2360e59).
 // The loop skeleton, the break condition, `levels += 1`, the `unwrap_or_else` default, the node constructor and the
@@ -55,8 +56,8 @@ pub struct BBIWriteOptions {
 // ================= span vocabulary and closure stand-ins: COPY of contracts/rt_spans/unit.rs.tpl =================
 // (that directory has no includable file; the text between the two rulers of rt_spans -- `pos_le`, `contains`,
 //  `node_lo/node_hi`, `secs_sorted`, `nodes_sorted`, `max_end_*`, `lemma_max_*`, the verified stand-ins for
-//  `.iter().map(..).max()` / `.first()`, `child_ok`, `covers`, `tight` -- is reproduced verbatim so that
-//  `node_of_child` carries the SAME contract here as in rt_spans.)
+//  `.iter().map(..).max()` / `.first()`, `child_ok`, `covers`, `tight` -- is reproduced verbatim by
+//  sync_from_rt_spans.py so that `node_of_child` is judged with the SAME vocabulary here as in rt_spans.)
 // ---------------- specification vocabulary (from the property text) ----------------
 /// (chrom, base) positions are ordered lexicographically
 spec fn pos_le(a: (u32, u32), b: (u32, u32)) -> bool { a.0 < b.0 || (a.0 == b.0 && a.1 <= b.1) }
@@ -185,6 +186,26 @@ fn first_child(v: &Vec<RTreeNode>) -> (r: Option<&RTreeNode>)
 {
     if v.len() == 0 { None } else { Some(&v[0]) }
 }
+/// `X.iter().max_by_key(|e| e.FIELD)` (not used by the code today): ASSUMED std contract -- an element whose key is
+/// maximal (the last such element), None on an empty slice.  Present so that an edit using it is judged: a maximum
+/// over the BASE alone is not the maximum over (chrom, base).
+#[verifier::external_body] fn max_by_key_sections_end(v: &Vec<Section>) -> (r: Option<&Section>)
+    ensures v@.len() == 0 ==> r is None,
+        v@.len() > 0 ==> r is Some && v@.contains(*r->Some_0) && forall|i: int| 0 <= i < v@.len() ==> (#[trigger] v@[i]).end <= r->Some_0.end,
+{ unimplemented!() }
+#[verifier::external_body] fn max_by_key_children_end_base(v: &Vec<RTreeNode>) -> (r: Option<&RTreeNode>)
+    ensures v@.len() == 0 ==> r is None,
+        v@.len() > 0 ==> r is Some && v@.contains(*r->Some_0) && forall|i: int| 0 <= i < v@.len() ==> (#[trigger] v@[i]).end_base <= r->Some_0.end_base,
+{ unimplemented!() }
+/// any other key: some element, nothing else known
+#[verifier::external_body] fn max_by_key_sections_other(v: &Vec<Section>) -> (r: Option<&Section>)
+    ensures v@.len() > 0 ==> r is Some && v@.contains(*r->Some_0),
+{ unimplemented!() }
+#[verifier::external_body] fn max_by_key_children_other(v: &Vec<RTreeNode>) -> (r: Option<&RTreeNode>)
+    ensures v@.len() > 0 ==> r is Some && v@.contains(*r->Some_0),
+{ unimplemented!() }
+/// `None.unwrap()`
+fn unwrap_none_pair() -> (r: (u32, u32)) requires false { (0, 0) }
 #[verifier::external_body] fn last_section(v: &Vec<Section>) -> (r: Option<&Section>) { unimplemented!() }
 #[verifier::external_body] fn last_child(v: &Vec<RTreeNode>) -> (r: Option<&RTreeNode>) { unimplemented!() }
 
@@ -402,6 +423,10 @@ pub struct IntoChunks<T> { _p: core::marker::PhantomData<T> }
 impl<T> VIter<T> {
     uninterp spec fn all(&self) -> Seq<T>;
     uninterp spec fn pos(&self) -> nat;
+    /// what is still to come
+    spec fn rest(&self) -> Seq<T> {
+        if self.pos() <= self.all().len() { self.all().subrange(self.pos() as int, self.all().len() as int) } else { Seq::empty() }
+    }
     /// `Iterator::next`
     #[verifier::external_body]
     fn next(&mut self) -> (r: Option<T>)
@@ -422,7 +447,7 @@ impl<T> VIter<T> {
     fn of_vec(v: Vec<T>) -> (r: VIter<T>)
         ensures r.all() == v@, r.pos() == 0,
     { unimplemented!() }
-    /// itertools `Itertools::chunks(size)` on a fresh iterator.  ASSUMED contract (itertools docs: "Return an
+    /// itertools `Itertools::chunks(size)` (of what the iterator has not yielded yet).  ASSUMED contract (itertools docs: "Return an
     /// iterable that can chunk the iterator.  Yield subiterators (chunks) that each yield a fixed number elements,
     /// determined by size.  The last chunk will be shorter if there aren't enough elements." -- and `size == 0`
     /// panics): see `chunked`.  The groups are modelled eagerly; itertools produces them lazily from a shared
@@ -432,10 +457,10 @@ impl<T> VIter<T> {
     fn chunks(self, size: usize) -> (r: IntoChunks<T>)
         requires
             size > 0,
-            self.pos() == 0,
         ensures
-            chunked(r.groups(), self.all(), size as int),
-            flat(r.groups(), r.groups().len() as int) == self.all(),
+            chunked(r.groups(), self.rest(), size as int),
+            flat(r.groups(), r.groups().len() as int) == self.rest(),
+            self.pos() == 0 ==> chunked(r.groups(), self.all(), size as int) && flat(r.groups(), r.groups().len() as int) == self.all(),
     { unimplemented!() }
 }
 /// adaptor spellings a plausible edit might start calling (`skip`, `take`, `step_by`, `rev`, `filter`-like
